@@ -1,0 +1,48 @@
+//go:build verif
+
+// Contracts of the lightning.Client interface for the govc verifier (/verif).
+// The answers of the backend are left unconstrained on purpose: a
+// postcondition proved for all results is proved for every script of backend
+// answers (DESIGN.md §5.2). Comment-only file.
+package lightning
+
+//@ func (Client).FeeReserve(amount)
+//@   trusted
+//@   pure
+//@   ensures result == ln.fee(amount)
+//@   ensures result <= amount
+
+//@ func (Client).CreateInvoice(amount)
+//@   trusted
+//@   pure
+
+//@ func (Client).InvoiceStatus(hash)
+//@   trusted
+//@   modifies ln.qfaults
+//@   ensures ln.qfaults >= old(ln.qfaults)
+//@   ensures err == nil <==> ln.qfaults == old(ln.qfaults)
+
+//@ func (Client).SendPayment(ctx, request, maxFee)
+//@   trusted
+//@   modifies ln.attempted, ln.pay, ln.payerr, ln.npay
+//@   ensures ln.attempted == upd(old(ln.attempted), request, true)
+//@   ensures ln.pay == r0 && ln.payerr == err && ln.npay == old(ln.npay) + 1
+
+//@ func (Client).PayPartialAmount(ctx, request, amountMsat, maxFee)
+//@   trusted
+//@   modifies ln.attempted, ln.pay, ln.payerr, ln.npay
+//@   ensures ln.attempted == upd(old(ln.attempted), request, true)
+//@   ensures ln.pay == r0 && ln.payerr == err && ln.npay == old(ln.npay) + 1
+
+//@ func (Client).OutgoingPaymentStatus(ctx, hash)
+//@   trusted
+//@   modifies ln.st, ln.sterr, ln.nst
+//@   ensures ln.st == r0 && ln.sterr == err && ln.nst == old(ln.nst) + 1
+
+//@ func (Client).SubscribeInvoice(ctx, paymentHash)
+//@   trusted
+//@   pure
+
+//@ func (Client).ConnectionStatus
+//@   trusted
+//@   pure
